@@ -96,9 +96,14 @@ def run(item):
     X = torch.as_tensor(common.eye_batch((H, W)))
     P = H * W
     base_tags = ['odd_size'] if (H % 2 or W % 2) else []
-    yl0, yh0 = DTCWTForward(biort=b, qshift=q, J=J)(X)
-    D = [t.numpy() for t in yh0]
-    inv0 = DTCWTInverse(biort=b, qshift=q)((yl0, yh0)).numpy()
+    try:
+        yl0, yh0 = DTCWTForward(biort=b, qshift=q, J=J)(X)
+        D = [t.numpy() for t in yh0]
+        inv0 = DTCWTInverse(biort=b, qshift=q)((yl0, yh0)).numpy()
+    except Exception as e:
+        res.violation('inverse_layout', {'biort': b, 'qshift': q, 'h': H, 'w': W, 'J': J, 'o_dim': 2, 'ri_dim': -1, 'what': 'default-layout forward+inverse'},
+                      {'kind': 'raise', 'exc': repr(e)[:200]}, base_tags)
+        return res
     lows = {}
     for j in range(1, J + 1):
         if j == J:
